@@ -49,6 +49,18 @@ std::vector<uint32_t> readOrder(fitsfile* fits, uint32_t ndim){
 }
 	
 bool reservedFitsKeyword(const char* key){
+	//keywords which describe the structure of the file, or change how cfitsio
+	//interprets the data, cannot be used to store user data
+	static const char* const structural[]={
+		"", "END", "XTENSION", "PCOUNT", "GCOUNT", "GROUPS",
+		"EXTNAME", "EXTVER", "EXTLEVEL", "INHERIT",
+		"BSCALE", "BZERO", "BLANK",
+		"CHECKSUM", "DATASUM", "CONTINUE", "HISTORY"
+	};
+	for(const char* reserved : structural){
+		if(strcmp(reserved, key) == 0)
+			return(true);
+	}
 	return(strncmp("BITPIX", key, 6) == 0 ||
 	       strncmp("SIMPLE", key, 6) == 0 ||
 	       strncmp("TYPE", key, 4) == 0 ||
